@@ -23,7 +23,7 @@ Engine: E5 (production SFTPServer / SFTPClient over a socketpair).
     Oracle: every API call returns or raises. "Blocks forever" is decided by a deadlock proof
     (client parked in recv, server idle in recv, every request byte consumed, every response
     byte delivered, as many responses sent as requests processed, no other thread alive, stable
-    for 0.5 s) or, failing that, by a 20 s bound; the case is re-run twice and reported only if
+    for 0.5 s) or, failing that, by 20 s without return and without traffic on the link; the case is re-run twice and reported only if
     it blocks all three times. The channel is then closed so that no thread stays behind.
 
 Known defects are detected at start-up with their minimal reproductions (the committed replays);
@@ -809,12 +809,16 @@ def run_client_once(ctx, case, observe):
     try:
         g = W.Guarded(program)
         g.thread.start()
+        moved = None
         while not g.done.wait(0.02):
+            snap = (cchan.sent, cchan.received)
+            if snap != moved:
+                moved, cur["t0"] = snap, time.monotonic()  # traffic on the link: slow is not blocked
             why = poll(g.thread)
             if why and stats["requests"] != stats["responses"]:
                 why = None  # the server owes an answer: not the client's fault (falls back to the long bound)
             if why is None and time.monotonic() - cur["t0"] > CLIENT_BOUND_S:
-                why = "no return within %.0f s" % CLIENT_BOUND_S
+                why = "no return and no traffic on the link for %.0f s" % CLIENT_BOUND_S
             if why:
                 info["blocked_at"] = cur["idx"]
                 info["op"] = cur["op"]
@@ -1145,6 +1149,20 @@ def client_case_st(draw):
 # ----------------------------------------------------------------------------- entry points
 
 
+
+def _explore(ctx, strategy, body, n, **kw):
+    """ctx.explore, but a violation found while hypothesis runs out of budget mid-shrink (the body is
+    then skipped, hypothesis calls the test flaky) is still reported, with the last failing case."""
+    try:
+        ctx.explore(strategy, body, n, **kw)
+    except Exception as e:
+        last = getattr(ctx, "_last_fail", None)
+        if type(e).__name__ in ("FlakyFailure", "Flaky", "FlakyReplay") and last:
+            ctx._record_unknown(*last)
+        else:
+            raise
+
+
 def run(ctx):
     ctx.set_budget(100, 1500)
     ctx.assume("requests without a complete request id (fewer than 4 body bytes, or a garbage length word) carry no obligation and are not generated")
@@ -1155,8 +1173,8 @@ def run(ctx):
         if EXCLUDE[name] is None and name not in _present:
             execute(ctx, probe)
     ctx.note("steering", {k: _excluded(k) for k in EXCLUDE})
-    ctx.explore(server_case_st(max_body=ctx.scale(25, 57)), lambda c: execute(ctx, c), ctx.scale(450, 2500))
-    ctx.explore(client_case_st(), lambda c: execute(ctx, c), ctx.scale(120, 400), shrink=False, seed_offset=1)
+    _explore(ctx, server_case_st(max_body=ctx.scale(25, 57)), lambda c: execute(ctx, c), ctx.scale(450, 5000))
+    _explore(ctx, client_case_st(), lambda c: execute(ctx, c), ctx.scale(120, 1000), shrink=False, seed_offset=1)
 
 
 def replay(ctx, case):
